@@ -371,8 +371,7 @@ def run(ck):
         return again(ev)
     counter_rules(pcl, ["bytesRead"], inc_cl, None, lam_of=True)
     cp = lib.single(prog, PR + "BodyStep::Chunk::parse")
-    newchunk = [(b.id, k) for b in cp.blocks.values() if b.term and len(b.succs) == 2 for k in (0, 1) if b.succs[k] is not None and
-                (lambda r: r is not None and ((r[0].get("f") or "").endswith("Chunk::size") and r[1] == "==" and b.term.get("rconst") == -1))(lib.rel_on_edge(b.term, k))]
+    newchunk = lib.relation_edges(cp, lambda r_: (r_.get("f") or "").endswith("Chunk::size"), lambda r_: (r_.get("t") or "").replace(" ", "").strip("()") == "-1", ("==",))
     ck.require(newchunk, "`size == -1` test not found in Chunk::parse")
 
     def inc_chunk(ev, body):
@@ -433,7 +432,17 @@ def run(ck):
         # the copy that uses the inserter
         copies = [e for e in f.calls(lambda e: (e.get("callee") or "") in ("std::copy", "std::copy_n"))]
         sg = [e for e in f.calls(lambda e: e.base_callee() == "std::basic_streambuf::setg")]
-        off = [dd for dd in f.events("decl") if "gptr" in ((dd.get("init") or {}).get("t") or "") and "eback" in ((dd.get("init") or {}).get("t") or "")]
+        def is_offset_expr(dd):
+            it = (dd.get("init") or {}).get("t") or ""
+            if "gptr" in it and "eback" in it:
+                return True
+            # or a member of the buffer that returns that difference (StreamBuf::position())
+            for h_ in prog.by_base.get(strip_tmpl(dd.get("icall") or ""), []):
+                rets_ = [r_ for r_ in h_.events("return")]
+                if rets_ and all("gptr" in (r_.get("t") or "") and "eback" in (r_.get("t") or "") for r_ in rets_):
+                    return True
+            return False
+        off = [dd for dd in f.events("decl") if dd.get("var") and is_offset_expr(dd)]
         # setg may be wrapped in a private helper of the buffer that takes the read offset as a parameter
         via = None
         if not sg:
@@ -451,7 +460,10 @@ def run(ck):
             sg_ev = sg[0] if via is None else via[0]
             ok = all(cfg.ev_dominates(d, off[0], g) for g in grow) and all(cfg.ev_dominates(d, g, sg_ev) for g in last)
             a = (sg[0] if via is None else via[2])["args"]
-            ok = ok and len(a) == 3 and all("bytes.data()" in (x.get("t") or "") for x in a) and "size()" in (a[2].get("t") or "")
+            sgf = (sg[0] if via is None else via[2]).func
+            data_vars = {d_["var"] for d_ in sgf.events("decl") if d_.get("var") and "bytes.data()" in ((d_.get("init") or {}).get("t") or "")}
+            on_data = lambda x: "bytes.data()" in (x.get("t") or "") or any(re.search(r"\b%s\b" % re.escape(v_), x.get("t") or "") for v_ in data_vars)
+            ok = ok and len(a) == 3 and all(on_data(x) for x in a) and "size()" in (a[2].get("t") or "")
             if via is None:
                 ok = ok and off[0]["var"] in (a[1].get("t") or "")
             else:
